@@ -33,9 +33,12 @@ Proof. exact attrs_refine_no_merge. Qed.
 Print Assumptions C11_source_order_partial.
 
 (* children: one output element per live child, in order, each expression exactly once *)
-Theorem C11_children_once_in_order : forall E rec chk fail cs s,
-  rec_ok rec chk cs -> forallb child_ok cs = true ->
-  check_items_with chk fail cs (view_items (fst (lower_children_with E rec cs s))) = [].
+Theorem C11_children_once_in_order : forall E rec chk fail (P : st -> Prop),
+  (forall v s, P s -> P (snd (transform_jsx_text v s))) ->
+  (forall e s, P s -> P (mark_dynamic E e s)) ->
+  forall cs s, P s -> rec_ok rec chk P cs -> forallb child_ok cs = true ->
+  check_items_with chk fail cs (view_items (fst (lower_children_with E rec cs s))) = []
+  /\ P (snd (lower_children_with E rec cs s)).
 Proof. exact children_items. Qed.
 Print Assumptions C11_children_once_in_order.
 
